@@ -36,7 +36,7 @@ ASSUMPTIONS = ['real os.fork() on Linux; sqlite3 3.40 file database in rollback-
                'a hang is never reported as a violation (watchdog => inconclusive) except a provable deadlock: a single-threaded '
                'process blocked in SQLiteProvider.acquire_lock']
 SHARDS = {'quick': 4, 'thorough': 16}
-MIN_EVALS = {'quick': 400, 'thorough': 5000}
+MIN_EVALS = {'quick': 300, 'thorough': 5000}
 CLASS_FLOORS = {'sqlite': 0.3, 'pool:generic': 0.08, 'pool:oracle': 0.08, 'nontrivial': 0.25}
 
 CHILD_FIRST_OPS = [['read'], ['write'], ['getconn'], ['disconnect', 'read'], ['rollback', 'read', 'write'], [['fork', ['read', 'write']]]]
@@ -91,6 +91,7 @@ def execute(case, workdir):
         obs = H.run_in_subprocess(lambda: H.sqlite_history(case, world))
         return J.judge_sqlite(case, obs)
     if case['kind'] == 'pool':
+        H.load_oracle_provider()      # imported once in this process, inherited by the forked ones
         obs = H.run_in_subprocess(lambda: H.pool_history(case))
         return J.judge_pool(case, obs)
     raise ValueError(case['kind'])
@@ -161,7 +162,7 @@ def run(ctx):
 
     def t_pool(case):
         evaluate(ctx, case)
-    ctx.run_test(t_pool, dict(case=pool_case), max_examples=ctx.scale(40, 300), name='pool_histories')
+    ctx.run_test(t_pool, dict(case=pool_case), max_examples=ctx.scale(25, 300), name='pool_histories')
     if ctx.violation:
         return
 
@@ -178,7 +179,7 @@ def run(ctx):
 
     def t_sqlite(case):
         evaluate(ctx, case)
-    ctx.run_test(t_sqlite, dict(case=sqlite_case), max_examples=ctx.scale(30, 250), name='sqlite_histories')
+    ctx.run_test(t_sqlite, dict(case=sqlite_case), max_examples=ctx.scale(20, 250), name='sqlite_histories')
 
 
 def replay(case):
